@@ -212,7 +212,10 @@ impl<'ctx> Ledger<'ctx> {
                 target,
             }) => {
                 let mut converted = Balance::default();
-                for (account, original_amount) in balance.iter() {
+                // visit accounts in a stable order, so that the reported failure is deterministic.
+                let mut accounts: Vec<_> = balance.iter().collect();
+                accounts.sort_unstable_by_key(|(account, _)| account.as_str());
+                for (account, original_amount) in accounts {
                     converted.add_amount(
                         *account,
                         price_db::convert_amount(
